@@ -42,6 +42,10 @@ pub enum Workload {
     /// three small echoes one virtual second apart (a long-lived connection whose
     /// duplicate-detection window keeps moving)
     Spaced,
+    /// after the handshake both sides park one operation of every kind (accept bidi / uni,
+    /// datagram receive, read on an open stream whose peer stays silent, terminated()) and do
+    /// nothing else: only a close / error can end them
+    PendingOps,
 }
 
 #[derive(Debug, Clone, Copy, PartialEq, Eq, Serialize, Deserialize)]
@@ -510,6 +514,9 @@ async fn serve(conn: Connection, workload: Workload, log: Arc<Mutex<Vec<String>>
                 });
             }
         }
+        Workload::PendingOps => {
+            pending_ops(conn, log, false).await;
+        }
         Workload::UniEachWay(n) => {
             let c2 = conn.clone();
             let l2 = log.clone();
@@ -590,6 +597,63 @@ async fn echo_one(conn: &Connection, tag: u8, n: usize) -> String {
     }
 }
 
+/// Parks one operation of every kind and logs how each of them ended. The client additionally
+/// opens a bidirectional stream, writes one byte and reads on it (the server accepts it and
+/// stays silent), so a read on an open stream is pending too.
+async fn pending_ops(conn: Connection, log: Arc<Mutex<Vec<String>>>, client: bool) {
+    let _ = conn.handshaked().await;
+    let say = |log: &Arc<Mutex<Vec<String>>>, what: &str, ended: &str| log.lock().unwrap().push(format!("pending:{what}:{ended}"));
+    let (c1, l1) = (conn.clone(), log.clone());
+    let accept_bi = async move {
+        // the server accepts the client's stream, keeps it open and waits for the next one
+        let mut held = Vec::new();
+        loop {
+            match c1.accept_bi_stream().await {
+                Ok(s) => held.push(s),
+                Err(_) => break,
+            }
+        }
+        say(&l1, "accept-bi", "error");
+    };
+    let (c2, l2) = (conn.clone(), log.clone());
+    let accept_uni = async move {
+        let r = c2.accept_uni_stream().await;
+        say(&l2, "accept-uni", if r.is_ok() { "stream" } else { "error" });
+    };
+    let (c3, l3) = (conn.clone(), log.clone());
+    let dgram = async move {
+        match c3.datagram_reader() {
+            Ok(Ok(mut reader)) => {
+                let r = reader.recv().await;
+                say(&l3, "datagram-recv", if r.is_ok() { "datagram" } else { "error" });
+            }
+            _ => say(&l3, "datagram-recv", "unavailable"),
+        }
+    };
+    let (c4, l4) = (conn.clone(), log.clone());
+    let read = async move {
+        if !client {
+            return;
+        }
+        match c4.open_bi_stream().await {
+            Ok(Some((_sid, (mut reader, mut writer)))) => {
+                let _ = writer.write_all(b"x").await;
+                let _ = writer.flush().await;
+                let mut buf = [0u8; 8];
+                let r = reader.read(&mut buf).await;
+                say(&l4, "stream-read", match r { Ok(0) => "eof", Ok(_) => "data", Err(_) => "error" });
+            }
+            _ => say(&l4, "stream-read", "open-failed"),
+        }
+    };
+    let (c5, l5) = (conn.clone(), log.clone());
+    let term = async move {
+        let _ = c5.terminated().await;
+        say(&l5, "terminated", "resolved");
+    };
+    tokio::join!(accept_bi, accept_uni, dgram, read, term);
+}
+
 fn short_err(s: &str) -> String {
     s.split(',').next().unwrap_or(s).chars().take(40).collect()
 }
@@ -636,6 +700,10 @@ async fn run_client(conn: Connection, workload: Workload, log: Arc<Mutex<Vec<Str
                 log.lock().unwrap().push(r);
                 tokio::time::sleep(Duration::from_millis(1000)).await;
             }
+        }
+        Workload::PendingOps => {
+            pending_ops(conn, log, true).await;
+            return;
         }
         Workload::Idle => {
             let r = echo_one(&conn, 1, 100).await;
